@@ -214,12 +214,13 @@ def isAbsStr (s : String) : Bool := s.toList.head? == some '/'
 def absPath (cwd : Path) (s : String) : Path :=
   if isAbsStr s then normalize true (s.splitOn "/") else normalize true (cwd ++ s.splitOn "/")
 
-/-- `strings.Cut(s, "=")` -/
+/-- `strings.Cut(s, "=")` on characters: split at the FIRST `=` -/
+def cutChars : List Char → List Char × Option (List Char)
+  | [] => ([], none)
+  | c :: cs => if c = '=' then ([], some cs) else ((cutChars cs).1.cons c, (cutChars cs).2)
+
 def cut (s : String) : String × Option String :=
-  match s.splitOn "=" with
-  | [] => (s, none)
-  | [a] => (a, none)
-  | a :: rest => (a, some ("=".intercalate rest))
+  (String.ofList (cutChars s.toList).1, (cutChars s.toList).2.map String.ofList)
 
 def dirNamed (d : String) : Tree → Option (List Tree)
   | .dir n sub => if n = d then some sub else none
